@@ -7,12 +7,20 @@ try:
     mr = json.load(open('/verif/mutation_results.json'))
 except Exception:
     mr = {}
+# notes come from the current mutant table (a note may be corrected after the run, e.g. a mutant found to be equivalent)
+try:
+    ns = {}
+    exec(compile(open("/verif/tools/mutation.py").read().split("\ndef sh(")[0], "mutation_table", "exec"), ns)
+    CUR = ns["M"]
+except Exception as e:
+    print("could not load current mutant notes:", e)
+    CUR = {}
 rows = ["| mutant | file | what | verdicts (quick tier) |", "|---|---|---|---|"]
 caught = missed = equiv = 0
 for k in sorted(mr):
     v = mr[k]
     verd = ", ".join(f"{c}: {x}" for c, x in sorted(v["checks"].items()))
-    note = v.get("note", "")
+    note = CUR.get(k, {}).get("note") or v.get("note", "")
     is_equiv = note.upper().startswith("EQUIVALENT") or note.upper().startswith("OUTSIDE") or note.lower().startswith("needle") or "sanity" in note.lower() or "allowed" in note.lower()
     anyc = any(x == "CAUGHT" for x in v["checks"].values())
     if is_equiv: equiv += 1
